@@ -189,9 +189,25 @@ Common ==
     typ |-> cfg.typ, mroot |-> cfg.mroot, model |-> cfg.model, shift |-> cfg.shift,
     eps |-> cfg.eps, sigma |-> cfg.sigma, rc |-> cfg.rc, n |-> cfg.n, A |-> cfg.A, alpha |-> cfg.alpha,
     ix |-> cfg.ix, sentinel |-> Sentinel(cfg.ix) ]
+\* A HessianMatrix object holds the configuration and the parameter matrices; the potential and its scalar
+\* parameters are arguments of every diagonalize_hessian call.  Calls(cfg): further calls on the SAME object
+\* (same geometry, same interacting pairs: the cut-offs belong to the object), each with the definitions it
+\* must be evaluated with.  The formal matrix (coefficients of the pair blocks) is the same for all of them.
+AltParams ==
+  IF cfg.model = "harmonic_hertz"
+  THEN << [model |-> "harmonic_hertz", n |-> cfg.n, A |-> cfg.A, alpha |-> <<3, 1>>],
+          [model |-> "harmonic_hertz", n |-> cfg.n, A |-> cfg.A, alpha |-> <<9, 4>>] >>
+  ELSE << [model |-> "inverse_power_law", n |-> <<6, 1>>, A |-> <<5, 2>>, alpha |-> cfg.alpha],
+          [model |-> "inverse_power_law", n |-> <<9, 2>>, A |-> <<1, 3>>, alpha |-> cfg.alpha],
+          [model |-> "lennard_jones", n |-> cfg.n, A |-> cfg.A, alpha |-> cfg.alpha] >>
+Calls == [t \in 1..Len(AltParams) |->
+            LET ap == AltParams[t]
+                c2 == [cfg EXCEPT !.model = ap.model, !.n = ap.n, !.A = ap.A, !.alpha = ap.alpha]
+            IN  ap @@ [defs |-> Defs(c2, geo, tabs[ap.model])]]
 Case ==
   Common @@
   [ m      |-> "Hessian",
+    calls  |-> Calls,
     pairs  |-> [k \in 1..Len(geo) |-> PairView(geo[k])],
     edge   |-> \E k \in Interacting(geo) : geo[k].edge,
     defs   |-> Defs(cfg, geo, tabs[cfg.model]),
